@@ -13,7 +13,8 @@ EXPLANATION = ("Unbounded SPSC queue. R1: Node::next is stored by the producer r
                "_consumer between delete and re-assignment. R4: every allocation outside the constructor is control-dependent on "
                "the capacity check; when the doubled capacity exceeds the maximum every path throws (record larger than the "
                "maximum) or returns nullptr, none allocates or publishes. R5: the destructor walks and frees the whole chain."
-               " R4g: the configured maximum reaches the queue unchanged. R7- (= C08.R1/R2): the caller's handling of a refused reservation. R8 (= C07.R1): the exit drain leaves only on the emptiness test.")
+               " R4g: the configured maximum reaches the queue unchanged. R7- (= C08.R1/R2): the caller's handling of a refused reservation. R8 (= C07.R1): the exit drain leaves only on the emptiness test."
+               ' R2h: every path to the release store of next has committed the writes of the current node (in the function itself or at every call site of a switching helper): shrink() and _handle_full_queue agree.')
 NOT_DECIDED = ("Order / exactly-once of the record stream across arbitrary grow/shrink histories and interleavings (behavioural; "
                "depends on C01 holding as behaviour), overflow of capacity*2, the value clause of the inner size comparison.")
 ASSUMPTIONS = ["single producer / single consumer per queue", "constructor and destructor run while no other thread uses the queue"]
